@@ -124,10 +124,9 @@ theorem attrEqV_iff (cs : CaseSensitivity) (v n : Bytes) :
 /-! ### `^=` -/
 
 theorem hasAttrWithPrefixV_iff (cs : CaseSensitivity) (v n : Bytes) :
-    hasAttrWithPrefixV cs v n = true ↔
-      v ≠ [] ∧ ∃ p s, v = p ++ s ∧ CEq (toCase cs) p n := by
-  unfold hasAttrWithPrefixV getTo
-  simp only [Bool.and_eq_true, Bool.not_eq_true', List.isEmpty_eq_false_iff, decide_eq_true_eq, ge_iff_le]
+    hasAttrWithPrefixV cs v n = true ↔ OpPrefix (toCase cs) v n := by
+  unfold hasAttrWithPrefixV getTo OpPrefix
+  simp only [Bool.and_eq_true, decide_eq_true_eq, ge_iff_le, ne_eq, List.length_eq_zero_iff]
   constructor
   · rintro ⟨⟨hne, hlen⟩, h⟩
     rw [if_pos hlen] at h
@@ -143,13 +142,12 @@ theorem hasAttrWithPrefixV_iff (cs : CaseSensitivity) (v n : Bytes) :
 /-! ### `$=` -/
 
 theorem hasAttrWithSuffixV_iff (cs : CaseSensitivity) (v n : Bytes) :
-    ∃ r, hasAttrWithSuffixV cs v n = some r ∧
-      (r = true ↔ v ≠ [] ∧ ∃ p s, v = p ++ s ∧ CEq (toCase cs) s n) := by
-  unfold hasAttrWithSuffixV checkedSub getFrom
-  by_cases hne : v = []
+    ∃ r, hasAttrWithSuffixV cs v n = some r ∧ (r = true ↔ OpSuffix (toCase cs) v n) := by
+  unfold hasAttrWithSuffixV checkedSub getFrom OpSuffix
+  by_cases hne : n = []
   · subst hne; exact ⟨false, by simp, by simp⟩
-  · have he : v.isEmpty = false := by simpa using hne
-    simp only [he, Bool.false_eq_true, ↓reduceIte, ge_iff_le, Nat.not_le]
+  · have he : n.length ≠ 0 := by simpa using hne
+    simp only [ne_eq, he, not_false_eq_true, not_true_eq_false, ↓reduceIte, ge_iff_le, Nat.not_le]
     by_cases hlen : n.length ≤ v.length
     · have h1 : ¬ v.length < n.length := by omega
       have h2 : v.length - n.length ≤ v.length := by omega
@@ -295,12 +293,13 @@ theorem mem_split_iff (p : UInt8 → Bool) (v w : Bytes) : w ∈ split p v ↔ I
       rw [this, split_append_sep _ _ _ hc]
       exact List.mem_append_right _ (head_mem_split hwn hsuf)
 
-/-- `~=` in full generality: some piece (possibly the empty one) equals the operand. -/
+/-- `~=` in terms of pieces: the operand is non-empty and some piece equals it. -/
 theorem matchesSplittedByWhitespaceV_iff (cs : CaseSensitivity) (v n : Bytes) :
     matchesSplittedByWhitespaceV cs v n = true ↔
-      ∃ w, IsPiece isAttrWhitespace v w ∧ CEq (toCase cs) w n := by
+      n ≠ [] ∧ ∃ w, IsPiece isAttrWhitespace v w ∧ CEq (toCase cs) w n := by
   unfold matchesSplittedByWhitespaceV
-  simp only [List.any_eq_true, mem_split_iff, csEq_iff]
+  simp only [Bool.and_eq_true, Bool.not_eq_true', List.isEmpty_eq_false_iff, List.any_eq_true,
+    mem_split_iff, csEq_iff, ne_eq]
 
 theorem isPiece_isWord {v w : Bytes} (hw : w ≠ []) : IsPiece isAttrWhitespace v w ↔ IsWord v w := by
   unfold IsPiece IsWord
